@@ -100,14 +100,14 @@ def _validate_type(type_, spec_version):
     :raises ValueError: If there are any errors with the identifier
     """
     if spec_version == "2.0":
-        if not re.match(TYPE_REGEX, type_):
+        if not TYPE_REGEX.fullmatch(type_):
             raise ValueError(
                 "Invalid type name '%s': must only contain the "
                 "characters a-z (lowercase ASCII), 0-9, and hyphen (-)." %
                 type_,
             )
     else:  # 2.1+
-        if not re.match(TYPE_21_REGEX, type_):
+        if not TYPE_21_REGEX.fullmatch(type_):
             raise ValueError(
                 "Invalid type name '%s': must only contain the "
                 "characters a-z (lowercase ASCII), 0-9, and hyphen (-) "
